@@ -126,9 +126,10 @@ type usagePair struct {
 
 // updateUsageQueue zeroes the accumulated usage all ActiveUsers valve and put the usage data im usageUpdateQueue
 func (panel *userPanel) updateUsageQueue() {
+	// lock order: usageUpdateQueueM before activeUsersM, as in commitUpdate
+	panel.usageUpdateQueueM.Lock()
 	panel.activeUsersM.Lock()
 	verifhook.At("panel.update.lockedA")
-	panel.usageUpdateQueueM.Lock()
 	for _, user := range panel.activeUsers {
 		if user.bypass {
 			continue
